@@ -1431,22 +1431,28 @@ inline validation_errc url::do_parse(const CharT* first, const CharT* last, cons
     if (search_params_ptr_ && !empty())
         old_params.swap(search_params_ptr_->params_);
 
-    const validation_errc res = [&]() {
+    validation_errc res = validation_errc::ok;
+    try {
         detail::url_serializer urls(*this);
 
         // reset URL
         urls.new_url();
 
         // is base URL valid?
-        if (base && !base->is_valid())
-            return validation_errc::invalid_base;
+        if (base && !base->is_valid()) {
+            res = validation_errc::invalid_base;
+        } else {
+            // remove any leading and trailing C0 control or space:
+            detail::do_trim(first, last);
+            //TODO-WARN: validation error if trimmed
 
-        // remove any leading and trailing C0 control or space:
-        detail::do_trim(first, last);
-        //TODO-WARN: validation error if trimmed
-
-        return detail::url_parser::url_parse(urls, first, last, base);
-    }();
+            res = detail::url_parser::url_parse(urls, first, last, base);
+        }
+    } catch (...) {
+        // a parse aborted by an exception leaves an empty url as well
+        reset_record();
+        throw;
+    }
     if (res == validation_errc::ok) {
         set_flag(VALID_FLAG);
         parse_search_params();
